@@ -426,6 +426,7 @@ class FaultProfile(PersistProfile):
         c["boot"] = r.choice([12, 20, 30])
         c["weights"] = {"new": 7.0, "setattr": 3.0, "attr_sym": 4.0, "se": 4.0, "cfg": 4.0, "aux": 1.5, "setparent": 1.0, "setop": 0.5, "bytes": 0.5, "attr_index": 1.0}
         c["mode"] = "faults"
+        c["cross_module_refs"] = "backward"
         c["aux_unordered"] = False  # set/mapping element order on the wire depends on str hashing
         c["aux_depth"] = r.choice([1, 2])
         c["max_aux"] = 2
@@ -493,7 +494,7 @@ class FaultProfile(PersistProfile):
                 for h in heal:
                     execute(w, h)
                 with ctx.seams.observing():
-                    sc = self_contained(w.m, ir)
+                    sc = self_contained(w.m, ir, cfg.get("cross_module_refs", "none"))
                 if not sc:
                     raise Diverged("could not heal")
                 w.step = res.steps
